@@ -504,6 +504,9 @@ func (p *workerPool) loadNodes() {
 			return true
 		})
 		p.loaded.updateFromLoadedSSNodes(fromWorkerPool, newNodes)
+		if verifEnabled {
+			p.nodes = verifOffloadMissing(p.nodes, newNodes)
+		}
 		for cid, n := range p.nodes {
 			if _, ok := newNodes[cid]; !ok {
 				n.offloaded()
@@ -1316,6 +1319,9 @@ func (e *engine) loadBucketNodes(workerID uint64,
 			if _, ok := newNodes[cid]; !ok {
 				offloaded = append(offloaded, node)
 			}
+		}
+		if verifEnabled {
+			verifSortNodes(offloaded)
 		}
 		for _, n := range loaded {
 			n.loaded()
